@@ -118,7 +118,9 @@ class BareHandler:
     def __call__(self, priority, identifier, *reports):
         for ctx_start, _ctx_end, text in reports:
             text = text.replace("\n", " ")
-            print(f"{ctx_start!r}: {priority.raw_text}: {text}")
+            # The text may quote source characters that cannot be printed (lone surrogates from '<n>' string chunks)
+            line = f"{ctx_start!r}: {priority.raw_text}: {text}"
+            print(line.encode("utf-8", "backslashreplace").decode("utf-8"))
 
 
 class GraphicalHandler:
